@@ -197,6 +197,18 @@ Theorem C12_builtin_multi_flag_old_refuted :
 Proof. exact builtin_multi_flag_old_refuted. Qed.
 Print Assumptions C12_builtin_multi_flag_old_refuted.
 
+(* regression: before commit b4a91fc the writer decided from the feature NAMES alone whether DocumentAnnotation is the
+   implicitly added one; a DocumentAnnotation of the user's own whose only feature is called language (here with a
+   description, supertype AnnotationBase, language : Integer) was not written and came back as the default one.  The
+   witness satisfies today's wf_tsb (whose DocumentAnnotation clause is now only "there is one") and violates the clause the
+   premise needed before (docann_okb_names_old); C12_descr_roundtrip covers it today (Example C12_own_docann_roundtrip). *)
+Theorem C12_docann_names_only_old_refuted :
+  exists s order s', wf_tsb s = true /\ docann_okb_names_old s = false /\
+    order_okb order (descr_of_ts_names_old s) = true /\
+    ts_of_descr order (descr_of_ts_names_old s) = Ok s' /\ canon s' <> canon (norm_ts s).
+Proof. exact docann_names_only_old_refuted. Qed.
+Print Assumptions C12_docann_names_only_old_refuted.
+
 (* What stays outside the statements above (modelling limits, no `_partial` theorem is left): str.strip() is modelled for
    ASCII white space; a descriptor that repeats a type name (the code keeps the last declaration with the features of both)
    is excluded by uniq_descrb / wf_descrb; the byte layer (lxml) is below the abstract descriptors, byte equality of
@@ -291,3 +303,11 @@ Example C12_bare_docann_roundtrip :
     Ok (mkTS [mkST DOCANN (Some "own") "uima.tcas.Annotation" []; mkST "a.B" None "uima.tcas.Annotation" [];
               mkST "b.Meta" None DOCANN [mkSF "language" false None "uima.cas.Integer" None None]] [DOCANN]).
 Proof. repeat split; vm_compute; reflexivity. Qed.
+
+(* a DocumentAnnotation of the user's own whose only feature is called language, declared differently from the implicit one:
+   written and read back as declared (commit b4a91fc) *)
+Example C12_own_docann_roundtrip :
+  wf_tsb ex_docann_own = true /\ order_okb [DOCANN; "a.B"] (descr_of_ts ex_docann_own) = true /\
+  exists s', ts_of_descr [DOCANN; "a.B"] (descr_of_ts ex_docann_own) = Ok s' /\
+             s_types s' = s_types ex_docann_own /\ s_redecl s' = [DOCANN].
+Proof. split; [vm_compute; reflexivity|]. exact docann_own_roundtrip_now. Qed.
